@@ -336,7 +336,15 @@ pub fn run(cfg: &Cfg, rep: &mut Report) {
                 }
                 let (kf, sf) = eval(&p, rep, false, "");
                 if kf || sf {
-                    eval(&p, rep, true, &format!("shrunk from canon {} {} to size {}", seed, size, z));
+                    // the smaller document goes first: the runner writes the first case of a class as the replay
+                    let mut tmp = Report::new("C03");
+                    eval(&p, &mut tmp, true, &format!("shrunk from canon {} {} to size {}", seed, size, z));
+                    for c in tmp.s_fail.into_iter().rev() {
+                        rep.s_fail.insert(0, c);
+                    }
+                    for c in tmp.k_disagree.into_iter().rev() {
+                        rep.k_disagree.insert(0, c);
+                    }
                     break;
                 }
             }
